@@ -145,3 +145,12 @@ def run(ctx, rep) -> None:
     loop = [n for n in ast.walk(pl) if isinstance(n, ast.For) and norm(n.iter) == "stage.context.items()"]
     ok = bool(loop) and any(isinstance(x, ast.Assign) and norm(x) == "merged[key] = value" for x in ast.walk(loop[0])) and any(isinstance(x, ast.Assign) and norm(x) == "stage.context = merged" for x in ast.walk(pl))
     rep.check(ok, "C18.R4", "planning carries every own-context key into the planned context", "for key, value in stage.context.items(): merged[key] = value; stage.context = merged", "src/stabilize/handlers/start_stage/planner.py", loop[0].lineno if loop else pl.lineno, disc="plan-copy")
+    # an own-context value that no ancestor provides (the mailbox is one) is copied VERBATIM: the only branch that rebuilds a
+    # list requires the key to be present in the ancestor merge already (shape shared with C16.R2)
+    from .c16 import _list_merge_shape
+    ifs_ = [i_ for i_ in (loop[0].body if loop else []) if isinstance(i_, ast.If)]
+    kv_ = [norm(e_) for e_ in loop[0].target.elts] if loop and isinstance(loop[0].target, ast.Tuple) and len(loop[0].target.elts) == 2 else ["key", "value"]
+    okv = any(_list_merge_shape(i_, "merged", kv_[0], kv_[1]) for i_ in ifs_)
+    rep.check(okv, "C18.R4", "planning copies an own-only context value unchanged", "a list is rebuilt (item by item, without duplicates) only when the ancestor merge already has that key; otherwise merged[key] = value" if okv else
+              "the overlay rebuilds list values that exist only in the stage's own context: equal entries of `_buffered_signals` (two identical persistent signals) collapse into one and a signal is lost",
+              "src/stabilize/handlers/start_stage/planner.py", loop[0].lineno if loop else pl.lineno, disc="plan-verbatim")
